@@ -272,6 +272,7 @@ func main() {
 	lf := parse(filepath.Join(repo, "utils/filesystem/lockfile.go"))
 	ft := parse(filepath.Join(repo, "utils/filesystem/filetimes.go"))
 	pf := parse(filepath.Join(repo, "utils/parallelisation/parallelisation.go"))
+	ff := parse(filepath.Join(repo, "utils/filesystem/files.go"))
 	F := &facts{}
 
 	// ---- NewGenericRemoteLockFile
@@ -507,6 +508,54 @@ func main() {
 		} else {
 			die(sl.Pos(), "heartBeat sleep: expected SleepWithContext(ctx, period[-d]) or time.Sleep(period[-d]), found `%s`", src(sl))
 		}
+	}
+
+	// ---- (*VFS).WriteFile -> WriteFileWithContext -> WriteToFile: the backend operations behind a heartbeat write
+	{
+		wf := mustFunc(ff, "VFS", "WriteFile")
+		if src(wf.Body) != "{ return fs.WriteFileWithContext(context.Background(), filename, data, perm) }" {
+			die(wf.Pos(), "VFS.WriteFile: unexpected body `%s`", src(wf.Body))
+		}
+		wc := mustFunc(ff, "VFS", "WriteFileWithContext")
+		calls := 0
+		for _, st := range wc.Body.List {
+			t := src(st)
+			switch {
+			case t == "err = fs.checkWhetherUnderlyingResourceIsClosed()", t == "if err != nil { return }",
+				t == "reader := bytes.NewReader(data)", t == "if int(n) < len(data) { err = io.ErrShortWrite }", t == "return":
+			case t == "n, err := fs.WriteToFile(ctx, filename, reader, perm)":
+				calls++
+			default:
+				die(st.Pos(), "VFS.WriteFileWithContext: unexpected statement `%s`", t)
+			}
+		}
+		if calls != 1 {
+			die(wc.Pos(), "VFS.WriteFileWithContext: expected exactly one call of fs.WriteToFile")
+		}
+		wt := mustFunc(ff, "VFS", "WriteToFile")
+		var ops []string
+		for _, st := range wt.Body.List {
+			t := src(st)
+			switch {
+			case t == "err = fs.checkWhetherUnderlyingResourceIsClosed()", t == "err = parallelisation.DetermineContextError(ctx)",
+				t == "if err != nil { return }", t == "return",
+				t == `if written == 0 { err = fmt.Errorf("%w: no bytes were written", commonerrors.ErrEmpty) return }`:
+			case t == "f, err := fs.OpenFile(filename, os.O_WRONLY|os.O_CREATE|os.O_TRUNC, perm)":
+				ops = append(ops, "WOpen")
+			case t == "defer func() { _ = f.Close() }()", t == "defer f.Close()":
+				ops = append(ops, "WDeferClose")
+			case t == "written, err = safeio.CopyDataWithContext(ctx, reader, f)":
+				ops = append(ops, "WCopy")
+			case t == "err = f.Close()", t == "_ = f.Close()":
+				ops = append(ops, "WClose")
+			case is(st, `(err = |_ = )?f\.Sync\(\)`) != nil, is(st, `if err = f\.Sync\(\); err != nil \{ return \}`) != nil,
+				is(st, `if err := f\.Sync\(\); err != nil \{ return .*\}`) != nil:
+				ops = append(ops, "WSync")
+			default:
+				die(st.Pos(), "VFS.WriteToFile: unexpected statement `%s`", t)
+			}
+		}
+		F.set("f_wtf_ops", "["+strings.Join(ops, "; ")+"]")
 	}
 
 	// ---- TryLock
